@@ -51,6 +51,10 @@ pub struct Crowd {
     pub n: u8,
     pub prefill_k: u16,
     pub window_ms: u16,
+    /// the tracked addresses visited *recently* (the limiter itself is older than two windows): they survive the
+    /// clean-up, and the time to serve the crowd is compared with the same crowd on a limiter that tracks nothing
+    #[serde(default)]
+    pub fresh: bool,
 }
 
 pub struct C16;
@@ -158,12 +162,20 @@ fn one_run(case: &Case, with_stallers: bool) -> Option<Duration> {
 
 /// the crowd run: returns the clients that were not answered within the bound
 fn crowd_run(case: &Case, crowd: &Crowd, n: usize) -> Result<Vec<String>, String> {
+    crowd_run_timed(case, crowd, n, usize::from(crowd.prefill_k) * 1000).map(|(m, _)| m)
+}
+
+/// returns the clients that were not answered within the bound, and the time until the last one was answered
+fn crowd_run_timed(case: &Case, crowd: &Crowd, n: usize, prefill: usize) -> Result<(Vec<String>, Duration), String> {
     let window = Duration::from_millis(u64::from(crowd.window_ms));
-    let cfg = ListenerCfg { proxy: case.proxy.then_some((true, true)), limiter: Some((window, 100_000)), timeout: Duration::from_secs(30), limiter_prefill: usize::from(crowd.prefill_k) * 1000, ..Default::default() };
+    let cfg = ListenerCfg { proxy: case.proxy.then_some((true, true)), limiter: Some((window, 100_000)), timeout: Duration::from_secs(30), limiter_prefill: prefill, limiter_prefill_fresh: crowd.fresh, ..Default::default() };
     let run = net::start_listener(&cfg, NetScript { discovery_ms: None, ..Default::default() }, 4);
     let held = open_stallers(case, run.port);
     // the clean-up is due two windows after the limiter was created
-    std::thread::sleep(window * 2 + Duration::from_millis(30));
+    if !crowd.fresh {
+        std::thread::sleep(window * 2 + Duration::from_millis(30));
+    }
+    let t_start = Instant::now();
     let barrier = std::sync::Barrier::new(n);
     let port = run.port;
     let missed: Vec<String> = std::thread::scope(|s| {
@@ -185,10 +197,11 @@ fn crowd_run(case: &Case, crowd: &Crowd, n: usize) -> Result<Vec<String>, String
             .collect();
         hs.into_iter().filter_map(|h| h.join().expect("crowd thread")).collect()
     });
+    let took = t_start.elapsed();
     drop(held);
     run.stop.cancel();
     std::mem::forget(run);
-    Ok(missed)
+    Ok((missed, took))
 }
 
 fn decide(case: &Case, info: &mut CaseInfo) -> Verdict {
@@ -197,6 +210,78 @@ fn decide(case: &Case, info: &mut CaseInfo) -> Verdict {
         info.class("crowd_arrives_while_limiter_cleanup_is_due");
         info.class(if case.proxy { "proxy:on" } else { "proxy:off" });
         let n = usize::from(crowd.n.max(2));
+        if crowd.fresh {
+            info.class("crowd_vs_recently_seen_addresses");
+            // first the admission itself, without sockets: on a limiter older than two windows, admitting the k-th
+            // recently seen address must not cost in proportion to k
+            let cost = |k: usize| -> (Duration, Duration, bool) {
+                use passage_protocol::rate_limiter::RateLimiter;
+                use std::net::{IpAddr, Ipv6Addr};
+                let window = Duration::from_millis(u64::from(crowd.window_ms));
+                let mut rl = RateLimiter::<IpAddr>::new(window, 100_000);
+                std::thread::sleep(window * 2 + Duration::from_millis(5));
+                let batch = 2000usize;
+                let t0 = Instant::now();
+                let mut times: Vec<Duration> = Vec::new();
+                // medians of nine batches: a single re-hash of the map or one periodic clean-up does not count
+                let median = |v: &[Duration]| -> Duration {
+                    let mut w = v.to_vec();
+                    w.sort();
+                    w.get(w.len() / 2).copied().unwrap_or_default()
+                };
+                let mut i = 0usize;
+                while i < k {
+                    let tb = Instant::now();
+                    for j in i..(i + batch).min(k) {
+                        rl.enqueue(IpAddr::V6(Ipv6Addr::from(0x2001_0db8_0001_0000_0000_0000_0000_0000u128 + j as u128)));
+                    }
+                    times.push(tb.elapsed());
+                    i += batch;
+                    if t0.elapsed() > Duration::from_secs(6) {
+                        let n = times.len();
+                        return (median(&times[1.min(n)..10.min(n)]), median(&times[n.saturating_sub(9)..]), false);
+                    }
+                }
+                let n = times.len();
+                (median(&times[1.min(n)..10.min(n)]), median(&times[n.saturating_sub(9)..]), true)
+            };
+            let k = usize::from(crowd.prefill_k) * 1000;
+            let grows = |(first, last, done): (Duration, Duration, bool)| !done || last > first * 25 + Duration::from_millis(40);
+            let m1 = cost(k);
+            if grows(m1) {
+                let m2 = cost(k);
+                if grows(m2) {
+                    return Verdict::Fail {
+                        sig: "admission-cost-grows-with-addresses-seen".into(),
+                        msg: format!("limiter older than two windows, {k} distinct addresses admitted one after the other: 2000 admissions took {:?} / {:?} at the beginning and {:?} / {:?} at the end (medians of nine batches) (completed within 6 s: {} / {})", m1.0, m2.0, m1.1, m2.1, m1.2, m2.2),
+                    };
+                }
+            }
+            // the same crowd on a limiter that tracks nothing (control) and on one that tracks many recently seen
+            // addresses: serving the crowd must not take longer in proportion to what other addresses did
+            let prefill = usize::from(crowd.prefill_k) * 1000;
+            let measure = || -> Result<(Duration, Duration, Vec<String>), String> {
+                let (m0, control) = crowd_run_timed(case, crowd, n, 0)?;
+                if !m0.is_empty() {
+                    return Err(format!("control crowd not served: {m0:?}"));
+                }
+                let (m1, disturbed) = crowd_run_timed(case, crowd, n, prefill)?;
+                Ok((control, disturbed, m1))
+            };
+            let slow = |c: Duration, d: Duration| d > c * 3 + Duration::from_millis(300);
+            return match measure() {
+                Err(e) => Verdict::Inconclusive(e),
+                Ok((c, d, m)) if m.is_empty() && !slow(c, d) => Verdict::Pass,
+                Ok((c1, d1, m1)) => match measure() {
+                    Ok((c2, d2, m2)) if !m2.is_empty() || slow(c2, d2) => Verdict::Fail {
+                        sig: "service-time-grows-with-addresses-seen".into(),
+                        msg: format!("{n} well-behaved clients arriving together: served in {c1:?} / {c2:?} when the limiter tracks nothing, in {d1:?} / {d2:?} when it tracks {prefill} recently seen addresses (not served: {m1:?} / {m2:?}; proxy {})", case.proxy),
+                    },
+                    Ok(_) => Verdict::Inconclusive("the slowdown did not reproduce".into()),
+                    Err(e) => Verdict::Inconclusive(e),
+                },
+            };
+        }
         return match crowd_run(case, crowd, n) {
             Ok(m) if m.is_empty() => Verdict::Pass,
             Ok(first) => {
@@ -261,7 +346,7 @@ impl Check for C16 {
             1 => Just(Stall::LoggedInSilent),
             1 => Just(Stall::NotReading),
         ];
-        let crowd = (16u8..64, 100u16..400, 100u16..250).prop_map(|(n, prefill_k, window_ms)| Crowd { n, prefill_k, window_ms });
+        let crowd = (16u8..64, 100u16..400, 100u16..250, prop::bool::weighted(0.35)).prop_map(|(n, prefill_k, window_ms, fresh)| if fresh { Crowd { n: n.max(48), prefill_k: 1500 + prefill_k * 2, window_ms, fresh } } else { Crowd { n, prefill_k, window_ms, fresh } });
         (any::<bool>(), any::<bool>(), proptest::collection::vec(stall, 1..20), any::<bool>(), proptest::option::weighted(0.05, crowd))
             .prop_map(|(proxy, limiter, mut stallers, good_v2, crowd)| {
                 if crowd.is_some() {
